@@ -40,9 +40,26 @@ FLAGS = ("-ffp-contract=off",)
 JOBS = 16
 
 
-def syntax_only(path):
-    cmd = ["g++", "-std=c++20", "-fsyntax-only", "-D" + vfcore.GUARD, "-DCYRANO_ARCH=64"] + vfcore.include_flags("plain") + [str(path)]
+BASE_CMD = ["g++", "-std=c++20", "-D" + vfcore.GUARD, "-DCYRANO_ARCH=64"]
+
+
+def syntax_only(path, pch=None):
+    """g++ -std=c++20 -fsyntax-only with the project include flags.  pch: directory holding a precompiled
+    math/c20_support.hxx.gch built a moment ago from the current /repo headers with the same flags (it only
+    saves re-parsing qt.hxx 800 times; a sample of programs is cross-checked without it)"""
+    cmd = BASE_CMD + ["-fsyntax-only"] + (["-I" + str(pch), "-Winvalid-pch"] if pch else []) + vfcore.include_flags("plain") + [str(path)]
     return vfcore.run(cmd, timeout=1800)
+
+
+def make_pch(ctx):
+    d = ctx.work / "pch"
+    (d / "math").mkdir(parents=True, exist_ok=True)
+    cmd = BASE_CMD + vfcore.include_flags("plain") + ["-x", "c++-header", str(H / "c20_support.hxx"), "-o", str(d / "math" / "c20_support.hxx.gch")]
+    r = vfcore.run(cmd, timeout=1800)
+    if r.rc != 0:
+        ctx.count("pch:unavailable")
+        return None
+    return d
 
 
 def first_error(r, path):
@@ -98,7 +115,18 @@ def run(ctx):
     spell.write_text('#include "TFEL/Math/qt.hxx"\nusing namespace tfel::math;\nvoid f(){ const qt<unit::StandardUnit<1, 1, -2, 0, 0, 0, 0>, double> a(1.);'
                      ' const qt<unit::Force, double> b(2.);\n const auto c = a + b; (void)c; }\n')
     jobs.append(({}, "spelling", spell))
-    res = vfcore.pmap(lambda j: (j, syntax_only(j[2])), jobs, workers=JOBS)
+    pch = make_pch(ctx)
+    res = vfcore.pmap(lambda j: (j, syntax_only(j[2], pch if j[1] in ("twin", "negative") else None)), jobs, workers=JOBS)
+    if pch:
+        # the precompiled header must not change any verdict: re-run a sample without it
+        sample = [j for j in jobs if j[1] in ("twin", "negative")][:6]
+        plain = dict((str(j[2]), r.rc != 0) for j, r in vfcore.pmap(lambda j: (j, syntax_only(j[2])), sample, workers=JOBS))
+        for (p, kind, f), r in res:
+            if str(f) in plain and plain[str(f)] != (r.rc != 0):
+                ctx.inconc("verdict of %s differs with and without the precompiled header" % f.name)
+            if "invalid-pch" in r.err or ".gch: " in r.err:
+                ctx.count("pch:not-used-for-some-run")
+        ctx.count("pch:cross-checked-runs", len(plain))
     verdict = {}
     for (p, kind, f), r in res:
         if r.timed_out:
